@@ -718,6 +718,21 @@ def harness_stage(ctx, exe, ncases):
         kind = "oracle-only run" if suite.endswith("-oracle") else "correspondence"
         ctx.obligation("%s %s (%d ops)" % (kind, suite, st["ops"]), st["disagreements"] == 0, json.dumps(st["examples"])[:600])
         ctx.coverage.setdefault("correspondence", {})[suite] = dict(ops=st["ops"], disagreements=st["disagreements"])
+    # certificate pass: every vector returned by the (unmodelled) Howell-form kernel routine goes through the Lean
+    # checker kerPow2Check, whose soundness is theorem SqiProps.C17.ker_pow2_check_sound
+    cert = []
+    for (suite, line), c in zip(cases, cout):
+        t = line.split()
+        if t[0] == "ker44two" and c.startswith("1 "):
+            cert.append(("chkker2e %s %s %s" % (t[1], " ".join(t[2:18]), c[2:]), line, c))
+    if cert:
+        verdicts = ctx.driver([x[0] for x in cert])
+        rejected = [(x, v) for x, v in zip(cert, verdicts) if v != "1"]
+        ctx.obligation("Lean certificate checker accepts every kernel vector mod 2^e returned by the real code (%d vectors)" % len(cert),
+                       not rejected, json.dumps([dict(op=x[1], impl=x[2], checker=v) for x, v in rejected[:3]])[:600])
+        ctx.coverage["ker2e_certificates"] = dict(checked=len(cert), rejected=len(rejected))
+        for x, v in rejected[:2]:
+            found.append((("ker44two:" + x[1][9:130], "ibz_4x4_right_ker_mod_power_of_2: returned vector rejected by the proved-sound Lean checker (not a primitive kernel vector)"), x[1], x[2], "checker:" + v))
     ctx.coverage["generator_histogram"] = dict(sorted(g.hist.items()))
     ctx.coverage["oracle_failures_total"] = len(found)
     ctx.coverage["primes_used"] = len(g.primes)
@@ -770,7 +785,7 @@ def run(ctx):
                     "ibz_probab_prime is a parameter of the Cornacchia model (Miller-Rabin stand-in in the driver); soundness theorems do not depend on it",
                     "C compiler, libc; Python oracle (defining equations) for the violation search"]
     ctx.assumptions += ["p prime in sqrt_mod_p / Cornacchia / kernel-mod-p theorems (hypothesis Nat.Prime p in the statements)",
-                        "Howell-form kernel modulo 2^e (matkermod.c) is covered by correspondence-free oracle testing only: no model, no theorem (partial)"]
+                        "Howell-form kernel modulo 2^e (matkermod.c) is not modelled: every vector the real code returns during a run is validated by the proved-sound Lean checker kerPow2Check (certificate per output) and by the Python oracle; completeness not covered (partial)"]
     b = ctx.build_repo("ref")
     exe = ctx.cc_harness(HARNESS, os.path.join(ctx.tmp, "drv_int"), 1, build=b)
     state = {}
